@@ -231,11 +231,26 @@ func (t *tokList) expr(e *Expr, l *Layout) {
 		t.add("]")
 	case EObj:
 		t.add("{")
+		style := e.KeyStyle
+		if style == 0 && l != nil && len(l.Seps) > 0 {
+			// like whitespace, the spelling of keys varies with the layout
+			style = int(l.Seps[len(e.Keys)%len(l.Seps)]) % 4
+		}
 		for i, a := range e.Kids {
 			if i > 0 {
 				t.add(",")
 			}
-			t.add(e.Keys[i], ":")
+			switch {
+			case style == 1:
+				t.add("\""+e.Keys[i]+"\"", ":")
+			case style == 2:
+				t.add("'"+e.Keys[i]+"'", ":")
+			case style == 3 && a.Kind == EVar && a.Str == e.Keys[i] && a.Wrap == 0:
+				t.add(e.Keys[i])
+				continue
+			default:
+				t.add(e.Keys[i], ":")
+			}
 			t.expr(a, l)
 		}
 		t.add("}")
@@ -341,6 +356,10 @@ func (p *printer) braces(toks []string) {
 func (p *printer) header(kw string, toks []string) {
 	start := p.b.Len()
 	p.b.WriteString(kw)
+	if kw != "@slot" && p.l != nil && len(p.l.Seps) > 0 && p.l.Seps[len(kw)%len(p.l.Seps)]%3 == 0 {
+		// white space between a directive and its "(" is legal ("@slot (" is not a named slot)
+		p.b.WriteString(p.l.next(false))
+	}
 	p.b.WriteString("(")
 	first, last := "", ""
 	if len(toks) > 0 {
